@@ -15,7 +15,7 @@ Nothing of the repository is imported or executed: this is an evaluator over ``a
 """
 import ast
 
-from .model import AnalysisError, own_nodes, is_name, is_self_attr, norm, FuncInfo
+from .model import local_names, AnalysisError, own_nodes, is_name, is_self_attr, norm, FuncInfo
 
 
 class Sym:
@@ -897,6 +897,15 @@ class SymEx:
         if isinstance(e, ast.Name):
             if e.id in st.env:
                 return [(st, st.env[e.id])]
+            if getattr(func, 'parent', None) is not None:
+                # a free variable of a nested function: the frame of the enclosing function is further down the stack
+                owner = func.parent
+                while owner is not None and e.id not in local_names(owner):
+                    owner = getattr(owner, 'parent', None)
+                if owner is not None:
+                    for fr in reversed(st.stack):
+                        if e.id in fr:
+                            return [(st, fr[e.id])]
             r = self.repo.resolve_name(func, e.id)
             if r and r[0] == 'class':
                 return [(st, ('class', r[1]))]
@@ -1066,6 +1075,23 @@ class SymEx:
                 pass
         if isinstance(op, ast.Mult) and isinstance(l, ListV) and isinstance(r, Const) and isinstance(r.v, int):
             return ListV(l.items * r.v)
+        if isinstance(op, (ast.BitOr, ast.BitAnd, ast.Sub, ast.BitXor)) and isinstance(l, ListV) and isinstance(r, ListV):
+            # set algebra (sets are kept as lists without duplicates); only when every membership is decided
+            def member(x, seq):
+                res = [values_equal(x, y) for y in seq]
+                if any(q is True for q in res):
+                    return True
+                return None if any(q is None for q in res) else False
+            ml = [member(x, r.items) for x in l.items]
+            mr = [member(y, l.items) for y in r.items]
+            if all(m is not None for m in ml + mr):
+                if isinstance(op, ast.BitOr):
+                    return ListV(l.items + [y for y, m in zip(r.items, mr) if not m])
+                if isinstance(op, ast.BitAnd):
+                    return ListV([x for x, m in zip(l.items, ml) if m])
+                if isinstance(op, ast.Sub):
+                    return ListV([x for x, m in zip(l.items, ml) if not m])
+                return ListV([x for x, m in zip(l.items, ml) if not m] + [y for y, m in zip(r.items, mr) if not m])
         return CallV(type(op).__name__, [l, r])
 
     def subscript(self, e, st, func):
@@ -1557,6 +1583,9 @@ class SymEx:
                     if t[0][0]:
                         out.append(item)
             return [(cur, ListV(out))]
+        if n == 'id' and len(args) == 1 and isinstance(args[0], (New, ListV, DictV, SelfV, Fresh)):
+            # identity of an object of the evaluated heap: the checker's own object stands for it
+            return [(st, Const(id(args[0])))]
         if n == 'object' and not args:
             st.fresh += 1
             return [(st, Fresh('object', 1000000 + id(e) % 1000000))]
